@@ -279,6 +279,26 @@ func (f *Formula) Atoms() []*Atom {
 	return out
 }
 
+// AllAtoms returns every atom of the formula, including those inside disjunctions.
+func (f *Formula) AllAtoms() []*Atom {
+	var out []*Atom
+	var walk func(x *Formula)
+	walk = func(x *Formula) {
+		if x == nil {
+			return
+		}
+		if x.Op == 0 {
+			out = append(out, x.Atom)
+			return
+		}
+		for _, s := range x.Sub {
+			walk(s)
+		}
+	}
+	walk(f)
+	return out
+}
+
 // ---------------------------------------------------------------------------------------
 // canonical paths with alias expansion
 
